@@ -731,6 +731,93 @@ theorem C14_loader_ok (lens : List Nat) (nb B : Nat) (dynamic drop : Bool) (orde
 example : ∃ bs, loaderBatches [3, 1, 4, 1, 5, 9, 2] 2 2 true false [6, 0, 5, 5, 1] = .ok (bs, none) :=
   C14_loader_ok _ _ _ _ _ _ ⟨[2, 9], [1, 0, 1, 0, 1, 1, 0], [9, 2]⟩ (by decide) (by simp) (by decide) rfl (by decide)
 
+/-! ### no batch is empty (audit E: the guard under which the collation theorems speak about the code)
+
+`lang_seq_to_batch`, `spect_seq_to_batch`, `context_window_seq_to_batch` RAISE on an empty batch
+(`zip(*seq)` cannot be unpacked / `pad_sequence` refuses an empty list); the models `langCollate`,
+`spectCollate`, `cwCollate` are total there (they return an empty batch), so for `items = []` the
+collation theorems are true of the model only. The two theorems below show that this input never
+arises from a loader: every batch a batch sampler yields holds at least one index. -/
+
+theorem chunksAux_ne_nil {α} {n : Nat} (hn : 0 < n) : ∀ (fuel : Nat) (l : List α),
+    ∀ b ∈ chunksAux n fuel l, b ≠ [] := by
+  intro fuel
+  induction fuel with
+  | zero => intro l b hb; simp [chunksAux] at hb
+  | succ fuel ih =>
+    intro l b hb
+    unfold chunksAux at hb
+    cases l with
+    | nil => simp at hb
+    | cons x xs =>
+      simp only [List.isEmpty_cons, Bool.false_eq_true, if_false, List.mem_cons] at hb
+      rcases hb with rfl | hb
+      · obtain ⟨m, rfl⟩ : ∃ m, n = m + 1 := ⟨n - 1, by omega⟩
+        simp
+      · exact ih _ b hb
+
+/-- **C14_batches_nonempty**: a `BucketBatchSampler` pass that ends without an exception yields no
+empty batch - full batches have the (positive) size of their bucket, the flushed ones are the
+non-empty pending lists. -/
+theorem C14_batches_nonempty (i2b b2s : Nat → Option Nat) (drop : Bool) (order : List Nat)
+    (bs : List (List Nat)) (h : iter i2b b2s drop order = (bs, none)) : ∀ b ∈ bs, b ≠ [] := by
+  obtain ⟨s, hr, hbs⟩ := iter_ok h
+  have inv : Inv i2b b2s order s := by simpa using run_inv (Inv.init i2b b2s) hr
+  have hout : ∀ b ∈ s.out, b ≠ [] := by
+    intro b hb h0
+    obtain ⟨_, n, _, q2, q3, _⟩ := inv.full b hb
+    rw [h0] at q2
+    simp at q2
+    omega
+  intro b hb
+  cases drop with
+  | true =>
+    simp only [if_true] at hbs
+    exact hout b (hbs ▸ hb)
+  | false =>
+    simp only [Bool.false_eq_true, if_false] at hbs
+    rw [hbs, List.mem_append] at hb
+    rcases hb with hb | hb
+    · exact hout b hb
+    · unfold flush at hb
+      obtain ⟨e, he, rfl⟩ := List.mem_map.1 hb
+      obtain ⟨n, _, q2, _⟩ := inv.pend e.1 e.2 ((sortKey_perm s.pend).subset he)
+      intro h0
+      simp [h0] at q2
+
+/-- **C14_loader_batches_nonempty**: no batch of a loader's epoch is empty (length buckets or torch's
+`BatchSampler`, `batch_size ≥ 1`), so `collate_fn` is never called on an empty list - the one input
+on which the collation models are total and the code is not. -/
+theorem C14_loader_batches_nonempty (lens : List Nat) (nb B : Nat) (dynamic drop : Bool)
+    (order : List Nat) (bs : List (List Nat)) (hB : 0 < B)
+    (h : loaderBatches lens nb B dynamic drop order = .ok (bs, none)) : ∀ b ∈ bs, b ≠ [] := by
+  unfold loaderBatches at h
+  by_cases hnb : nb > 1
+  · simp only [hnb, if_true] at h
+    cases hp : bucketParams lens nb B dynamic with
+    | error e => simp [hp] at h
+    | ok p =>
+      simp only [hp] at h
+      exact C14_batches_nonempty _ _ drop order bs (Except.ok.inj h)
+  · simp only [hnb, if_false] at h
+    have hb : bs = plainIter B drop order := (congrArg Prod.fst (Except.ok.inj h)).symm
+    intro b hmem
+    rw [hb] at hmem
+    have hc : b ∈ chunks B order := by
+      unfold plainIter at hmem
+      cases drop with
+      | true => simp only [if_true] at hmem; exact (List.mem_filter.1 hmem).1
+      | false => simpa using hmem
+    exact chunksAux_ne_nil hB _ _ b hc
+
+/-- all hypotheses together, both paths (a trailing short batch in each) -/
+example := C14_loader_batches_nonempty [3, 1, 4, 1, 5, 9, 2] 2 2 false false [0, 1, 2, 3, 4, 5, 6]
+  [[0, 2], [1, 3], [4, 5], [6]] (by decide) (by rfl)
+example := C14_loader_batches_nonempty [3, 1, 4, 1, 5, 9, 2] 1 3 false false [6, 5, 4, 3, 2, 1, 0]
+  [[6, 5, 4], [3, 2, 1], [0]] (by decide) (by rfl)
+/-- the totalised input: the model collates an empty batch, the code raises `ValueError` / `RuntimeError` -/
+example : langCollate (-100 : Int) true ([] : List (List Int × String)) = ([], [], []) := by rfl
+
 /-! ## loaders: identical (seed, epoch) ⇒ identical batches; which epoch `len(loader)` refers to
 
 The loader object (`Loader`, in `Model/Batching.lean`) holds its constructor arguments and C13's
